@@ -50,6 +50,14 @@ def predDump (cfg : List Bool) (x : Bool) (dumpToks : List String) : Option Stri
     else none
   | _ => none
 
+/-- P_C13 on every line of implementation output: INIT and COOKIE-ECHO never leave with a zero checksum -/
+def wirePred (impl : List String) : Option String :=
+  if impl.any (fun t => (t.splitOn "zero_INIT_[").length > 1 || (t.splitOn "zero_COOKIEECHO").length > 1) then
+    some "[C13,C04] an INIT or COOKIE-ECHO packet was emitted with a zero checksum field"
+  else none
+
+def orElse (a b : Option String) : Option String := match a with | some x => some x | none => b
+
 def step (st : St) (op impl : List String) : St × String × Option String :=
   match op with
   | ["new", ilA, zcA, ilB, zcB] =>
@@ -59,7 +67,7 @@ def step (st : St) (op impl : List String) : St × String × Option String :=
     let x := side x
     let n := (st.s.hist x).size
     let s := st.s.step (.start x)
-    ({ st with s := s }, s!"{outStr ((s.hist x).toList.drop n)} | {dump (s.ep x)}", none)
+    ({ st with s := s }, s!"{outStr ((s.hist x).toList.drop n)} | {dump (s.ep x)}", wirePred impl)
   | ["deliver", x, i] =>
     let x := side x
     match (st.s.hist x)[parseNat! i]? with
@@ -68,12 +76,21 @@ def step (st : St) (op impl : List String) : St × String × Option String :=
       let n := (st.s.hist (!x)).size
       let s := st.s.step (.deliver x (parseNat! i))
       let v := predDump st.cfg (!x) ((impl.dropWhile (· != "|")).drop 1)
-      ({ st with s := s }, s!"{pktStr p} => {outStr ((s.hist (!x)).toList.drop n)} | {dump (s.ep (!x))}", v)
+      ({ st with s := s }, s!"{pktStr p} => {outStr ((s.hist (!x)).toList.drop n)} | {dump (s.ep (!x))}", orElse v (wirePred ((impl.dropWhile (· != "=>")).drop 1)))
   | ["t1", x, kind] =>
     let x := side x
     let n := (st.s.hist x).size
     let s := st.s.step (if kind == "cookie" then .t1Cookie x else .t1Init x)
-    ({ st with s := s }, s!"{outStr ((s.hist x).toList.drop n)} | {dump (s.ep x)}", none)
+    ({ st with s := s }, s!"{outStr ((s.hist x).toList.drop n)} | {dump (s.ep x)}", wirePred impl)
+  | ["t1q", x, kind] =>
+    let x := side x
+    let s := st.s.step (.t1Queue x (kind == "cookie"))
+    ({ st with s := s }, dump (s.ep x), none)
+  | ["gather", x] =>
+    let x := side x
+    let n := (st.s.hist x).size
+    let s := st.s.step (.gather x)
+    ({ st with s := s }, s!"{outStr ((s.hist x).toList.drop n)} | {dump (s.ep x)}", wirePred impl)
   | _ => (st, "bad-op", none)
 
 end Drv.HsD
